@@ -931,6 +931,10 @@ class Tract:
             # Pull the preprocessed text from the parser.
             self.pp_desc = parser.text
 
+            # Remember which flags came from this parse, so that they
+            # are replaced (rather than duplicated) by the next parse.
+            self._parse_generated_flags = parser.generated_flags
+
         return parser.lots + parser.qqs
 
     def preprocess(self, clean_qq=None, commit=False) -> str:
